@@ -8,7 +8,7 @@ SRC="$1"; SID="$2"; PID="$3"; WK="$4"
 if [ -f /verif/seeded/$SID/meta.json ] && grep -q '"confirmed"' /verif/seeded/$SID/meta.json; then
   # already confirmed earlier: only (re-)try the check
   if [ -d /tmp/lab/w$WK/verif ]; then /verif/tools/lab.sh w$WK sync; else /verif/tools/lab.sh w$WK >/dev/null; fi
-  RES=$(env -u CARGO_TARGET_DIR /verif/tools/lab.sh w$WK try "/verif/seeded/$SID/patch.diff" "$PID" | tr '\n' ' ' | sed 's/KNOWN-FINDING[^V\[]*//g' | cut -c1-400)
+  RES=$(env -u CARGO_TARGET_DIR /verif/tools/lab.sh w$WK try "/verif/seeded/$SID/patch.diff" "$PID" | tr '\n' ' ' | sed 's/KNOWN-FINDING[^V\[]*//g' | cut -c1-1500)
   echo "$SID retry check: $RES" >> /verif/tmp/seedres.txt
   exit 0
 fi
@@ -42,6 +42,6 @@ fi
 RES="not-tried"
 if [ $OK = yes ]; then
   if [ -d /tmp/lab/w$WK/verif ]; then /verif/tools/lab.sh w$WK sync; else /verif/tools/lab.sh w$WK >/dev/null; fi
-  RES=$(env -u CARGO_TARGET_DIR /verif/tools/lab.sh w$WK try "$SRC/patch.diff" "$PID" | tr '\n' ' ' | sed 's/KNOWN-FINDING[^V\[]*//g' | cut -c1-400)
+  RES=$(env -u CARGO_TARGET_DIR /verif/tools/lab.sh w$WK try "$SRC/patch.diff" "$PID" | tr '\n' ' ' | sed 's/KNOWN-FINDING[^V\[]*//g' | cut -c1-1500)
 fi
 echo "$SID confirmed=$OK clean=$CLEAN mut=$MUT suite=[$SUITE] check: $RES" >> /verif/tmp/seedres.txt
